@@ -14,6 +14,16 @@ package main
 // coq/Tie/C14w.v proves that the interpretation of these terms equals the specification of
 // coq/Spec/SpecWriter.v, and nothing can be proved about a term that is not understood.
 // Comments are not part of the syntax tree of a statement and are dropped.
+//
+// The same translator, with ext set, serves setfuncs.go (E4), which needs a second fragment:
+//
+//	v, ok := m[k]   GSDefine ["v"; "ok"] [GEIndexOk m k]      m[k] = v     GSMapStore m k v
+//	obj.f = v       GSFieldStore obj "f" v                    delete(m, k) GSDelete m k
+//	for k, v := range xs { B }   GSRange "k" "v" xs B         defer r.m(a) GSDefer (GEMethod r "m" a)
+//	true false 0 1 ..   !a   a && b   a || b   a == b   a != b   len(e)   &e.f
+//	make(map[K]V[, hint])        GEMakeMap (hint: a literal or len(field path), dropped)
+//
+// For the wrappers (ext unset) these stay GSUnknown/GEUnknown + problem, as before.
 
 import (
 	"fmt"
@@ -38,9 +48,11 @@ var wrapperFuncs = [][2]string{
 
 type wrapGen struct {
 	p      *pkgInfo
+	who    string          // the generator, for problem reports
 	fn     string          // for problem reports
 	pkgs   map[string]bool // names under which the file imports packages
 	locals map[string]bool // receiver, parameters and every name declared in the body
+	ext    bool            // the second fragment (setfuncs.go) is translated too; false for the wrappers
 }
 
 func (g *wrapGen) src(n ast.Node) string {
@@ -61,13 +73,13 @@ func coqStringList(l []string) string {
 
 func (g *wrapGen) unknownExpr(x ast.Expr, why string) string {
 	s := g.src(x)
-	problem("wrappers: %s: expression not understood (%s): %s", g.fn, why, s)
+	problem("%s: %s: expression not understood (%s): %s", g.who, g.fn, why, s)
 	return "(GEUnknown " + coqString(s) + ")"
 }
 
 func (g *wrapGen) unknownStmt(s ast.Stmt, why string) string {
 	t := g.src(s)
-	problem("wrappers: %s: statement not understood (%s): %s", g.fn, why, t)
+	problem("%s: %s: statement not understood (%s): %s", g.who, g.fn, why, t)
 	return "GSUnknown " + coqString(t)
 }
 
@@ -102,7 +114,12 @@ func (g *wrapGen) expr(x ast.Expr) string {
 		switch t.Name {
 		case "nil":
 			return "GENil"
-		case "true", "false", "iota", "_":
+		case "true", "false":
+			if g.ext && !g.locals[t.Name] {
+				return "(GEBool " + t.Name + ")"
+			}
+			return g.unknownExpr(x, "identifier outside the fragment")
+		case "iota", "_":
 			return g.unknownExpr(x, "identifier outside the fragment")
 		}
 		if g.pkgs[t.Name] && !g.locals[t.Name] {
@@ -113,6 +130,12 @@ func (g *wrapGen) expr(x ast.Expr) string {
 		if t.Kind == token.STRING {
 			if s, err := strconv.Unquote(t.Value); err == nil {
 				return "(GEStr " + coqString(s) + ")"
+			}
+		}
+		if g.ext && t.Kind == token.INT {
+			// a non-negative decimal literal; anything else (hex, underscores, huge) stays outside
+			if n, err := strconv.ParseUint(t.Value, 10, 31); err == nil && strconv.FormatUint(n, 10) == t.Value {
+				return "(GEInt " + t.Value + ")"
 			}
 		}
 		return g.unknownExpr(x, "literal")
@@ -131,8 +154,24 @@ func (g *wrapGen) expr(x ast.Expr) string {
 				return "(" + con + " " + g.expr(t.Y) + ")"
 			}
 		}
+		if g.ext && !isNilIdent(t.X) && !isNilIdent(t.Y) {
+			if con, ok := map[token.Token]string{token.LAND: "GEAnd", token.LOR: "GEOr", token.EQL: "GEEq", token.NEQ: "GENe"}[t.Op]; ok {
+				return "(" + con + " " + g.expr(t.X) + " " + g.expr(t.Y) + ")"
+			}
+		}
 		return g.unknownExpr(x, "operator")
 	case *ast.UnaryExpr:
+		if g.ext && t.Op == token.NOT {
+			return "(GENot " + g.expr(t.X) + ")"
+		}
+		if g.ext && t.Op == token.AND {
+			// &e.f : the address of a field (of a variable, not a package member)
+			if sel, ok := ast.Unparen(t.X).(*ast.SelectorExpr); ok {
+				if id, isID := sel.X.(*ast.Ident); !(isID && g.pkgs[id.Name] && !g.locals[id.Name]) {
+					return "(GEAddr " + g.expr(sel) + ")"
+				}
+			}
+		}
 		if t.Op == token.AND {
 			if cl, ok := t.X.(*ast.CompositeLit); ok {
 				if ty, ok := cl.Type.(*ast.Ident); ok {
@@ -184,8 +223,20 @@ func (g *wrapGen) expr(x ast.Expr) string {
 						return "GEEmptyBytes"
 					}
 				}
+				// make(map[K]V) and make(map[K]V, hint): a fresh empty map; the hint is dropped, so it
+				// must be an expression whose evaluation does nothing (a literal, len of a field path)
+				if g.ext && (len(t.Args) == 1 || len(t.Args) == 2) {
+					if _, ok := t.Args[0].(*ast.MapType); ok && (len(t.Args) == 1 || pureHint(t.Args[1])) {
+						return "GEMakeMap"
+					}
+				}
 				return g.unknownExpr(x, "make")
-			case "new", "append", "len", "cap", "copy", "panic", "recover", "delete", "print", "println":
+			case "len":
+				if g.ext && len(t.Args) == 1 {
+					return "(GELen " + g.expr(t.Args[0]) + ")"
+				}
+				return g.unknownExpr(x, "builtin")
+			case "new", "append", "cap", "copy", "panic", "recover", "delete", "print", "println":
 				return g.unknownExpr(x, "builtin")
 			}
 			return "(GECall \"\" " + coqString(f.Name) + " " + g.exprs(t.Args) + ")"
@@ -193,6 +244,28 @@ func (g *wrapGen) expr(x ast.Expr) string {
 		return g.unknownExpr(x, "call")
 	}
 	return g.unknownExpr(x, fmt.Sprintf("%T", x))
+}
+
+// pureHint: an integer literal, or len(p) for a path p of field selections from a variable.
+func pureHint(x ast.Expr) bool {
+	switch t := ast.Unparen(x).(type) {
+	case *ast.BasicLit:
+		return t.Kind == token.INT
+	case *ast.CallExpr:
+		if id, ok := t.Fun.(*ast.Ident); ok && id.Name == "len" && len(t.Args) == 1 && t.Ellipsis == token.NoPos {
+			p := ast.Unparen(t.Args[0])
+			for {
+				sel, ok := p.(*ast.SelectorExpr)
+				if !ok {
+					break
+				}
+				p = ast.Unparen(sel.X)
+			}
+			_, ok := p.(*ast.Ident)
+			return ok
+		}
+	}
+	return false
 }
 
 func (g *wrapGen) lhsNames(l []ast.Expr) ([]string, bool) {
@@ -221,9 +294,25 @@ func (g *wrapGen) block(l []ast.Stmt, indent string) string {
 func (g *wrapGen) stmt(s ast.Stmt, indent string) string {
 	switch t := s.(type) {
 	case *ast.AssignStmt:
+		if g.ext && t.Tok == token.ASSIGN && len(t.Lhs) == 1 && len(t.Rhs) == 1 {
+			switch l := ast.Unparen(t.Lhs[0]).(type) {
+			case *ast.IndexExpr: // m[k] = v
+				return "GSMapStore " + g.expr(l.X) + " " + g.expr(l.Index) + " " + g.expr(t.Rhs[0])
+			case *ast.SelectorExpr: // obj.f = v
+				if id, isID := l.X.(*ast.Ident); !(isID && g.pkgs[id.Name] && !g.locals[id.Name]) {
+					return "GSFieldStore " + g.expr(l.X) + " " + coqString(l.Sel.Name) + " " + g.expr(t.Rhs[0])
+				}
+			}
+		}
 		names, ok := g.lhsNames(t.Lhs)
 		if !ok {
 			return g.unknownStmt(s, "assignment to something that is not a variable")
+		}
+		if g.ext && len(t.Lhs) == 2 && len(t.Rhs) == 1 && (t.Tok == token.DEFINE || t.Tok == token.ASSIGN) {
+			if ix, ok := ast.Unparen(t.Rhs[0]).(*ast.IndexExpr); ok { // v, ok := m[k]
+				con := map[token.Token]string{token.DEFINE: "GSDefine", token.ASSIGN: "GSAssign"}[t.Tok]
+				return con + " " + coqStringList(names) + " [(GEIndexOk " + g.expr(ix.X) + " " + g.expr(ix.Index) + ")]"
+			}
 		}
 		if len(t.Rhs) != 1 && len(t.Rhs) != len(t.Lhs) {
 			return g.unknownStmt(s, "assignment count")
@@ -256,10 +345,47 @@ func (g *wrapGen) stmt(s ast.Stmt, indent string) string {
 	case *ast.ReturnStmt:
 		return "GSReturn " + g.exprs(t.Results)
 	case *ast.ExprStmt:
-		if _, ok := t.X.(*ast.CallExpr); ok {
+		if ce, ok := t.X.(*ast.CallExpr); ok {
+			if id, isID := ce.Fun.(*ast.Ident); g.ext && isID && id.Name == "delete" && !g.locals["delete"] &&
+				len(ce.Args) == 2 && ce.Ellipsis == token.NoPos {
+				return "GSDelete " + g.expr(ce.Args[0]) + " " + g.expr(ce.Args[1])
+			}
 			return "GSExpr " + g.expr(t.X)
 		}
 		return g.unknownStmt(s, "expression statement that is not a call")
+	case *ast.DeferStmt:
+		if !g.ext {
+			break
+		}
+		// defer recv.m(args): a method call (not a package function, not a function literal)
+		if sel, ok := t.Call.Fun.(*ast.SelectorExpr); ok && t.Call.Ellipsis == token.NoPos {
+			if id, isID := sel.X.(*ast.Ident); !(isID && g.pkgs[id.Name] && !g.locals[id.Name]) {
+				return "GSDefer " + g.expr(t.Call)
+			}
+		}
+		return g.unknownStmt(s, "defer of something that is not a method call")
+	case *ast.RangeStmt:
+		if !g.ext {
+			break
+		}
+		// for k, v := range coll { body }; break/continue/goto in the body are not in the fragment
+		// (they become GSUnknown there)
+		if t.Tok != token.DEFINE && !(t.Key == nil && t.Value == nil) {
+			return g.unknownStmt(s, "range that assigns to existing variables")
+		}
+		names := []string{"_", "_"}
+		for i, e := range []ast.Expr{t.Key, t.Value} {
+			if e == nil {
+				continue
+			}
+			id, ok := e.(*ast.Ident)
+			if !ok {
+				return g.unknownStmt(s, "range variable")
+			}
+			names[i] = id.Name
+		}
+		return "GSRange " + coqString(names[0]) + " " + coqString(names[1]) + " " + g.expr(t.X) + "\n" +
+			indent + "    " + g.block(t.Body.List, indent+"    ")
 	}
 	return g.unknownStmt(s, fmt.Sprintf("%T", s))
 }
@@ -321,13 +447,17 @@ func wrapperIdent(recv, name string) string {
 }
 
 func (p *pkgInfo) genWrapper(recv, name string) (string, bool) {
+	return p.genFunc("wrappers", recv, name, wrapperIdent(recv, name), false)
+}
+
+// genFunc translates method recv.name into a Coq definition `ident`; ext selects the second fragment.
+func (p *pkgInfo) genFunc(who, recv, name, ident string, ext bool) (string, bool) {
 	fd := p.findMethod(recv, name)
-	ident := wrapperIdent(recv, name)
 	if fd == nil || fd.Body == nil {
-		problem("wrappers: method %s.%s not found", recv, name)
+		problem("%s: method %s.%s not found", who, recv, name)
 		return fmt.Sprintf("(* %s.%s: NOT FOUND in the source *)\n\n", recv, name), false
 	}
-	g := &wrapGen{p: p, fn: recv + "." + name, pkgs: importNames(p.fileOf(fd)), locals: map[string]bool{}}
+	g := &wrapGen{p: p, who: who, fn: recv + "." + name, pkgs: importNames(p.fileOf(fd)), locals: map[string]bool{}, ext: ext}
 	recvName := "_"
 	if len(fd.Recv.List[0].Names) > 0 {
 		recvName = fd.Recv.List[0].Names[0].Name
@@ -339,7 +469,8 @@ func (p *pkgInfo) genWrapper(recv, name string) (string, bool) {
 	}
 	if fd.Type.Params != nil {
 		for _, f := range fd.Type.Params.List {
-			if _, ok := f.Type.(*ast.Ellipsis); ok {
+			// in the second fragment a variadic parameter is the slice it is inside the function
+			if _, ok := f.Type.(*ast.Ellipsis); ok && !ext {
 				problem("wrappers: %s: variadic parameter", g.fn)
 			}
 		}
@@ -348,7 +479,7 @@ func (p *pkgInfo) genWrapper(recv, name string) (string, bool) {
 	for _, n := range results {
 		if n != "_" {
 			// named results can be assigned and returned by a bare return: not in the fragment
-			problem("wrappers: %s: named result %s", g.fn, n)
+			problem("%s: %s: named result %s", who, g.fn, n)
 		}
 	}
 	ast.Inspect(fd.Body, func(n ast.Node) bool {
@@ -364,6 +495,14 @@ func (p *pkgInfo) genWrapper(recv, name string) (string, bool) {
 		case *ast.ValueSpec:
 			for _, id := range t.Names {
 				g.locals[id.Name] = true
+			}
+		case *ast.RangeStmt:
+			if t.Tok == token.DEFINE {
+				for _, e := range []ast.Expr{t.Key, t.Value} {
+					if id, ok := e.(*ast.Ident); ok {
+						g.locals[id.Name] = true
+					}
+				}
 			}
 		case *ast.FuncLit:
 			return false
